@@ -26,6 +26,39 @@ CHECKS.update({
             "Instances with reference stopping iteration 1..9; borderline decisions (within 1e-9 relative, except exact dyadic ties) are skipped and counted.", "6 C08"),
 })
 
+CHECKS.update({
+    "C03": ("boxmc", "bounded-exhaustive enumeration of the layout box (n_states x max_batch_size x emulated device count) x solver, differential against the single-device single-batch layout on the same call history",
+            "Every layout of the box (quick n<=8, b<=n+1, d<=3; thorough n<=13 plus 64..200, d in 1,2,3,4,8) x zero-vector-is/is-not-a-state x six solver variants runs the call history [1,1,1,1,60] on real solvers in worker pools with that many emulated devices; per-call values, iteration, gain, value history and the value of the returned policy must equal the baseline layout; array lengths and finiteness checked; semi-async runs must meet their error bound for every partition.",
+            "Host devices emulated with --xla_force_host_platform_device_count; Mgen(n) problems; rounding tolerance 1e-10 relative.", "6 C03"),
+    "C04": ("boxmc", "bounded-exhaustive enumeration of unichain-aperiodic MDP alphabets x eps x initial values on the real RVI solver, exact g* oracle and reference recurrence",
+            "Every member of Mreset(S=2) (666 canonical, unichain+aperiodic by construction), every M2d/M2s/chain-family member the graph classifier certifies for every deterministic policy, a near-tie family and a packed union are solved by the real solver for three tolerances; reported gain, the optimality equation at every state, the exact gain of the returned policy, equality with the reference recurrence, and boundedness under 50 further sweeps are asserted.",
+            "Premise certified by enumeration of all deterministic policies (S<=4); g* by policy enumeration / LP.", "6 C04"),
+    "C05": ("boxmc", "bounded-exhaustive enumeration of policies x value vectors (sweep level) and of initial policies x budgets x limits (evaluation / solve level) against a reference policy-iteration trace",
+            "Sweep level: every MDP of M2d/M2s x every deterministic policy x every V in W^2 through the real evaluation kernel and through the public route (initial_policy + initial_value + max_eval_iter=1); evaluation level: every policy of the sliced MDPs x budgets {1,3,sufficient}; solve level: every initial policy x limits {1,2,50} x reset on/off, compared step by step with a reference trace; gamma=1/2 traces are exact (no borderline guard); a 2x2 action-vector family exercises single-component policy changes.",
+            "Borderline (non-identical near-tied actions) traces are skipped and counted when gamma=0.9.", "6 C05"),
+    "C06": ("boxmc", "exhaustive enumeration of update schedules (partition x per-sweep permutation for every seed of the window) on the real semi-async solver against a numpy block Gauss-Seidel",
+            "For every partition of the layout box, fixed order and each seed of the seed window, the first 6 real sweeps (public solve(1)) are compared state by state with block Gauss-Seidel driven by the permutation recorded through the MDPAX_VERIF hook; permutations must be permutations, change between sweeps, be reproducible from the seed and differ between seeds; a sweep started at exact v* must return v*.",
+            "Permutation observed through the guarded hook; partition through public batch_processor attributes; emulated devices.", "6 C06"),
+    "C07": ("boxmc", "bounded-exhaustive enumeration of MDP alphabets x period x gamma x eps x history clearing on the real periodic solver against plain-VI reference iterates and the documented measure",
+            "Every (MDP, period in {1,2,3,4,7}, gamma in {1/2,0.9,1}, eps, clear) of the box is a real solve(); returned values must be the plain VI iterate V_n, n the first iteration >= period with the documented measure below eps, the circular buffer must hold V_(n-p)..V_n in the documented slots, the policy greedy; for gamma=1 on certified unichain MDPs (incl. periodic cycles) (V_n-V_(n-p))/p is within eps/p of g*.",
+            "Runs whose stop decision is within rounding noise of the threshold (amplified by gamma^-(n-1)) are skipped and counted.", "6 C07"),
+    "C13": ("boxmc", "complete enumeration of every (state, action, event) for every parameter tuple of the shipped-problem boxes",
+            "For each of ~750 (quick) / ~7000 (thorough) valid parameter tuples the complete probability table is tabulated from the real problem object; finiteness, non-negativity and |row sum - 1| <= 1e-4 are checked for every state-action pair. Hendrix truncation deficits are known findings keyed by the distribution parameters and measured minimum row sum.",
+            "Parameter grids of DESIGN 4.4; tuples with S*A*E above the cap are outside.", "6 C13"),
+    "C14": ("boxmc", "complete enumeration of listed states and positive-probability triples for every parameter tuple of the shipped-problem boxes",
+            "Documented space sizes (closed-form), duplicate-free spaces, index round trip for every listed state, and exact successor membership (hash lookup, no clipping) plus index consistency for every positive-probability (state, action, event).",
+            "Same parameter boxes as C13.", "6 C14"),
+    "C15": ("boxmc", "complete enumeration of every (state, action, event) triple against scalar reference dynamics for every parameter tuple",
+            "Successor state and reward of every triple (all probabilities, Hendrix where issued <= stock) are compared with pure-Python scalar models written from the docstrings, including unit conservation.",
+            "Reference models are my reading of the documented dynamics (Forest follows the pymdptoolbox definition the class cites).", "6 C15"),
+    "C16": ("boxmc", "complete enumeration of every event probability and initial value against independent scipy distributions for every parameter tuple",
+            "De Moor: gamma CDF differences with censored tail (1e-9); Mirjalili: censored negative binomial x multinomial with order-dependent logits (5e-6 absolute, numpyro's own accuracy); Hendrix: brute-force joint distribution with the truncated-tail interval oracle; Forest exact; initial values per documented definition.",
+            "scipy.stats as the independent reference; Hendrix compared up to the mass beyond the model's truncation point as the statement allows.", "6 C16"),
+    "C17": ("boxmc", "bounded-exhaustive enumeration of tabular MDP alphabets x encodings, shipped parameter tuples and an error-path grid through the real matrix builder",
+            "Builder output is compared entry by entry with numpy accumulation for block packs and slices of M2d/M2s under four encodings and both probability return types, for every small shipped tuple (non-normalised Hendrix tuples must raise), and the exact solve of the returned matrices must agree with functional value iteration; the error path is enumerated over deficit x tolerance x position with a second smaller offender.",
+            "Tolerance 0 only with exactly normalised dyadic rows.", "6 C17"),
+})
+
 PENDING = {}
 
 
